@@ -75,7 +75,7 @@ type progGen struct {
 
 // lsIOPointers are hardware registers that behave as plain read/write cells with the LCD and the timer
 // off: a memory operand may as well point at them (span 2: the next address qualifies too).
-var lsIOPointers = []uint16{0xff05, 0xff06, 0xff42, 0xff43, 0xff45, 0xff47, 0xff4a, 0xff4b}
+var lsIOPointers = []uint16{0xff05, 0xff06, 0xff42, 0xff43, 0xff45, 0xff47, 0xff4a, 0xff4b, 0xff0f, 0xff0f}
 var lsIOPointers2 = []uint16{0xff05, 0xff42, 0xff4a}
 
 func (g *progGen) pick(span int) uint16 {
